@@ -343,7 +343,7 @@ class Engine:
     def getattr(self, base, attr, n, st):
         if isinstance(base, MObj) and attr == "__dict__":
             return ("dictview", base)
-        if isinstance(base, MObj) and base.cls == "StrKeyDict" and attr in ("get", "pop") and attr not in base.attrs:
+        if isinstance(base, MObj) and base.cls == "StrKeyDict" and attr in ("get", "pop", "setdefault") and attr not in base.attrs:
             return self._skd_method(base, attr)
         if isinstance(base, tuple) and len(base) == 2 and base[0] == "dictview" and attr in ("get", "pop"):
             return self._skd_method(base[1], attr)
@@ -396,6 +396,12 @@ class Engine:
                         eng.oblige(st, "frame", n, z3.BoolVal(key in eng.c.frame or "*" in eng.c.frame), f"removal of state key {key!r} outside modifies={sorted(eng.c.frame)}")
                     del obj.attrs[key]
                 return v
+            if meth == "setdefault":
+                val = args[1] if len(args) > 1 else lift(None)
+                if eng.c.frame is not None and obj.cls == "StrKeyDict":
+                    eng.oblige(st, "frame", n, z3.BoolVal(key in eng.c.frame or "*" in eng.c.frame), f"store to state key {key!r} outside modifies={sorted(eng.c.frame)}")
+                obj.attrs[key] = val
+                return val
             if len(args) > 1:
                 return args[1]
             if meth == "pop":
@@ -782,6 +788,16 @@ class Engine:
                 return V(TStr, SQ.concat(a.t, b.t))
             if o == "+" and isinstance(a.ty, TSeq) and isinstance(b.ty, TSeq) and a.ty.elem == b.ty.elem:
                 return V(TSeq(a.ty.elem), SQ.concat(a.t, b.t))
+            if o == "*" and ((isinstance(a.ty, TSeq) and b.ty is TInt) or (a.ty is TInt and isinstance(b.ty, TSeq))):
+                # list repetition: len = len(s) * max(k, 0), element i is s[i mod len(s)]
+                sq, k = (a, b) if isinstance(a.ty, TSeq) else (b, a)
+                r = self.fresh(st, TSeq(sq.ty.elem), "repeated")
+                ls = SQ.length(sq.t)
+                kk = z3.If(k.t < 0, z3.IntVal(0), k.t)
+                st.assume(SQ.length(r.t) == ls * kk)
+                i = z3.Int("rp!i")
+                st.assume(z3.ForAll([i], z3.Implies(z3.And(0 <= i, i < SQ.length(r.t), ls > 0), SQ.at(r.t, i) == SQ.at(sq.t, i % ls)), patterns=[SQ.at(r.t, i)]))
+                return r
             if isinstance(a.ty, TSet) and isinstance(b.ty, TSet):
                 if o == "|":
                     return V(a.ty, z3.SetUnion(a.t, b.t))
@@ -802,6 +818,10 @@ class Engine:
                 k = self.reg.lookup_method("OrderedSet", dunder)
             if k is not None:
                 return self.apply_contract(k, [a, b], {}, n, st)
+            rd = {"+": "__radd__", "*": "__rmul__", "-": "__rsub__"}.get(o)
+            rk = self.reg.lookup_method(getattr(b.ty, "name", ""), rd) if rd else None
+            if rk is not None and not hasattr(rk, "requires"):
+                return rk(self, [b, a], {}, n, st)          # reflected operator of the right operand (scalar * vector)
         if isinstance(a, tuple) and isinstance(b, tuple) and o == "+":
             return a + b
         if isinstance(a, V) and isinstance(a.ty, TSeq) and a.ty.nodup and o in ("-", "|"):
@@ -984,6 +1004,9 @@ class Engine:
                 return self.untup_lazy(V(ty.v, z3.Select(s.val(base.t), k.t)))
             if isinstance(ty, TTup):
                 return self.index(self.untup(base), idx, n, st)
+            hook = self.reg.lookup_method(getattr(ty, "name", ""), "__getitem__")
+            if hook is not None and not hasattr(hook, "bind_args"):
+                return hook(self, [base, idx], {}, n, st)       # natively modelled container type (e.g. a numpy vector)
             if isinstance(ty, TObj):
                 k = self.reg.lookup_method(ty.name, "__getitem__")
                 if k is not None:
@@ -2163,6 +2186,10 @@ class Engine:
         if seq_t is not None:
             body_st.assume(SQ.take(seq_t, i.t + 1) == SQ.append1(SQ.take(seq_t, i.t), SQ.at(seq_t, i.t)))
         item = at(i.t)
+        if isinstance(item, V):
+            inv = self.type_inv(item)       # an element taken out of a container keeps the representation invariant of its type (dict keys distinct, ...)
+            if inv is not None:
+                body_st.assume(inv)
         if getattr(self.c, "name_loop_items", False) and isinstance(s.target, ast.Name) and isinstance(item, V) and item.ty is not TNone:
             # opt-in: the loop variable gets a name of its own (item == seq[i] as a ground equation): obligations then mention the item, not the
             # sequence and index it came from, which keeps goal-directed slicing local
